@@ -110,6 +110,12 @@ pub trait EntropySource {
     /// generate a random value in the given range [min, max).
     fn gen_range(&mut self, min: usize, max: usize) -> usize;
 
+    /// decide whether a mutation fires at the given rate.
+    ///
+    /// compares a uniform draw from [0, 1) with `rate`, so rate 0.0 never fires and
+    /// rate 1.0 always fires, for both entropy sources and for exhausted fuzzer input.
+    fn should_mutate(&mut self, rate: f64) -> bool;
+
     /// generate random bytes of the specified length.
     #[allow(dead_code)]
     fn gen_bytes(&mut self, len: usize) -> Vec<u8>;
@@ -205,6 +211,19 @@ impl<'a> EntropySource for GenerationSource<'a> {
                 u.int_in_range(min..=max.saturating_sub(1)).unwrap_or(min)
             }
         }
+    }
+
+    fn should_mutate(&mut self, rate: f64) -> bool {
+        let draw = match self {
+            GenerationSource::Rand(rng) => rng.random::<f64>(),
+            GenerationSource::Arbitrary(u) => {
+                // map 8 fuzzer bytes onto [0, 1) (0.0 when exhausted); an arbitrary f64
+                // bit pattern could be NaN, negative or far above 1.0
+                let bits: u64 = u.arbitrary().unwrap_or(0);
+                (bits >> 11) as f64 / (1u64 << 53) as f64
+            }
+        };
+        draw < rate
     }
 
     fn gen_bytes(&mut self, len: usize) -> Vec<u8> {
